@@ -7,6 +7,7 @@
      sel  <id> <model/implementation mismatch 0/1> <spec violation 0/1> <duplicate-label-set spec violation 0/1>
      sem  <id> <verdict code>
      psem <id> <verdict code>
+     rows <id> <statement index> <code> <fp:value:timestamp_ms>...
    Atoms: decimal integers (any size), t / f, none, constructor names, strings as h<hex bytes>. *)
 open Promsel
 
@@ -133,6 +134,18 @@ let ostr = function Some s -> hex_of_chars s | None -> "-"
 let rec int_of_pos = function XH -> 1 | XO p -> 2 * int_of_pos p | XI p -> 2 * int_of_pos p + 1
 let int_of_z = function Z0 -> 0 | Zpos p -> int_of_pos p | Zneg p -> - (int_of_pos p)
 
+(* decimal text of an N of any size *)
+let dec_of_n = function
+  | N0 -> "0"
+  | Npos p ->
+    let rec bits p acc = match p with XH -> 1 :: acc | XO q -> bits q (0 :: acc) | XI q -> bits q (1 :: acc) in
+    let step ds bit =
+      let carry = ref bit in
+      let res = List.map (fun d -> let v = d * 2 + !carry in carry := v / 10; v mod 10) ds in
+      if !carry > 0 then res @ [!carry] else res in
+    let ds = List.fold_left step [0] (bits p []) in
+    String.concat "" (List.rev_map string_of_int ds)
+
 let handle (x : sx) : unit =
   match x with
   | L [A "sql"; id; kind; h; c; ms] ->
@@ -158,6 +171,11 @@ let handle (x : sx) : unit =
                pe_sels = list_of selector_of sels; pe_series = list_of pstored_of series; pe_impl = select_of tree;
                pe_text = str_of text; pe_search = tbl_of search; pe_full = tbl_of full } in
     Printf.printf "psem %d %d\n" (int_of id) (int_of_z (psem_verdict pe))
+  | L [A "rows"; id; idx; db; tree; text; search] ->
+    let (code, rows) = engine_rows (select_of tree) (str_of text) (db_of db) (tbl_of search) in
+    Printf.printf "rows %d %d %d" (int_of id) (int_of idx) (int_of_z code);
+    List.iter (fun r -> Printf.printf " %s:%d:%d" (dec_of_n r.r_fp) (int_of_z r.r_val) (int_of_z r.r_ts)) rows;
+    print_newline ()
   | _ -> fail_sx "case"
 
 let () =
